@@ -178,6 +178,8 @@ package hrpc
 // unreachable. A nil inner map stands for the single empty qualifier for deletes only - in both passes (finding F15).
 // (the buffer capacity is the total size of the cells: within the address space)
 //@   requires mapsum(m.values, f, mapsum(ite(m.mutationType == 3 && m.values[f] == nil, emptyQualifier, m.values[f]), q, 24 + len(m.key) + strlen(f) + strlen(q) + len(ite(m.mutationType == 3 && m.values[f] == nil, emptyQualifier, m.values[f])[q]))) <= 281474976710656
+// what is returned (C05): the size reported is the number of bytes of the block (mod 2^32: the wire field is a uint32)
+//@   ensures[C05] r2 == len(r0) % 4294967296
 //@   panics never[C10]
 //@   loop 1 invariant[C10] cbsLen >= 0 && cbsLen == sumvisited(f, mapsum(ite(m.mutationType == 3 && m.values[f] == nil, emptyQualifier, m.values[f]), q, 24 + len(m.key) + strlen(f) + strlen(q) + len(ite(m.mutationType == 3 && m.values[f] == nil, emptyQualifier, m.values[f])[q])))
 //@   loop 2 invariant[C10] cbsLen >= atentry(2, cbsLen) && cbsLen == atentry(2, cbsLen) + sumvisited(q, 24 + len(m.key) + strlen(family) + strlen(q) + len(v[q]))
@@ -379,6 +381,15 @@ package hrpc
 //@   ensures[C01] r0.Mutation != nil && sameslice(r0.Mutation.Row, m.key)
 // kind, durability and timestamp of the mutation are the call's own (the timestamp is omitted for "latest")
 //@   ensures[C05] r0.Mutation.MutateType != nil && *r0.Mutation.MutateType == m.mutationType && r0.Mutation.Durability == durabilities[m.durability]
+// with cellblocks the request carries the cell count and no column values, the block is appended to the caller's list
+// (only when it is not empty) and its size is reported; without, nothing is appended and the size is 0
+//@   ensures[C05] !isCellblocks ==> r2 == 0 && sameslice(r1, cbs) && r0.Mutation.AssociatedCellCount == nil
+//@   ensures[C05] isCellblocks ==> r0.Mutation.AssociatedCellCount != nil && len(r0.Mutation.ColumnValue) == 0
+//@   ensures[C05] isCellblocks && r2 == 0 ==> sameslice(r1, cbs)
+//@   ensures[C05] isCellblocks && r2 > 0 ==> len(r1) == len(cbs) + 1 && len(r1[len(cbs)]) % 4294967296 == r2 && forall(k, 0 <= k && k < len(cbs), sameslice(r1[k], cbs[k]))
+// the TTL travels as the attribute "_ttl" exactly when one was set
+//@   ensures[C05] (len(m.ttl) > 0) == (len(r0.Mutation.Attribute) == 1) && (len(m.ttl) == 0 ==> len(r0.Mutation.Attribute) == 0)
+//@   ensures[C05] len(m.ttl) > 0 ==> r0.Mutation.Attribute[0] != nil && sameslice(r0.Mutation.Attribute[0].Value, m.ttl)
 //@   ensures[C05,C10] (m.timestamp != 18446744073709551615) == (r0.Mutation.Timestamp != nil) && (m.timestamp != 18446744073709551615 ==> *r0.Mutation.Timestamp == m.timestamp)
 //@ func hrpc.(*baseQuery).Priority
 //@   modifies nothing
